@@ -34,6 +34,9 @@ type LifeParams struct {
 	Segs   int    `json:"segs"`   // number of re-opens (1 or 2)
 	// EarlySave: a save (Commit) after the first segment's acknowledgements, i.e. BEFORE the branch changes
 	EarlySave bool `json:"early_save"`
+	// AckDuringReopen: the re-open request is answered after 500 ms; optionally one pending (stale) event is
+	// acknowledged while it is in flight
+	AckDuringReopen bool `json:"ack_during_reopen"`
 }
 
 func init() {
@@ -284,6 +287,16 @@ func lifeMain(p LifeParams) {
 		if answer != 0 {
 			cause = gocbcore.ErrDCPStreamStateChanged
 		}
+		ackInFlight := false
+		if p.AckDuringReopen {
+			c.Fault = func(r *gocbcore.SimRequest) gocbcore.SimAnswer {
+				if r.Kind == "openstream" {
+					return gocbcore.SimAnswer{Kind: "delay", Delay: 500 * time.Millisecond}
+				}
+				return gocbcore.SimAnswer{}
+			}
+			ackInFlight = len(pending) > 0 && vrt.Choose(2, true, "ack-while-the-reopen-is-in-flight") == 1
+		}
 		if !c.EndStream(0, cause) {
 			vrt.Failf("harness: no open stream to end in segment %d", seg)
 			return
@@ -334,12 +347,21 @@ func lifeMain(p LifeParams) {
 				SwapFailover: []gocbcore.FailoverEntry{{VbUUID: gocbcore.VbUUID(uuid), SeqNo: 0}}}}
 			hist = append(hist, fmt.Sprintf("end;reopen(rollback to %d on branch %d,from %d)", R, uuid, resumed))
 		}
+		if ackInFlight {
+			vrt.Sleep(100 * time.Millisecond)
+			hist = append(hist, "(re-open in flight)")
+			ack(pending[0])
+			pending = pending[1:]
+		}
 		vrt.Sleep(3e9)
 		vrt.Quiesce()
 		c.WaitIdle()
 		if !c.StreamOpen(0) {
 			fail("segment %d: the stream was not re-opened", seg)
 			return
+		}
+		if ackInFlight {
+			checkTracked(fmt.Sprintf("after the re-open of segment %d completed", seg))
 		}
 		fresh := collect(seg, resumed)
 		acks(fresh)
